@@ -68,6 +68,12 @@ static const job JOBS[] = {
 	{ "tiny-a", "# Head A\n\n[x] *t*\n\n[x]: http://u/\n", XD, FORMAT_HTML, 0 },
 	{ "tiny-b", "Other B\n=======\n\n| a |\n|---|\n| b |\n[Cap]\n\nc[^n]\n\n[^n]: n\n", XD, FORMAT_LATEX, 0 },
 	{ "tiny-c", "## C [lab]\n\nterm\n: def \"q\"\n", XD, FORMAT_FODT, 0 },
+	/* other public entry points: the text-level CriticMarkup pass the CLI runs for -a/-r, OPML import, metadata queries */
+	{ "critic-a", "a {++b++} {--c--} {~~d~>e~~}\n\n{++new\n\npara++} x\n", XD | EXT_CRITIC_ACCEPT, FORMAT_HTML, 0 },
+	{ "critic-r", "f {++g++} {--h--} {==i==}{>>j<<}\n\n{--old\n\npara--} y\n", XD | EXT_CRITIC_REJECT, FORMAT_HTML, 0 },
+	{ "opml-in", "<?xml version=\"1.0\"?>\n<opml version=\"1.0\"><head><title>T</title></head><body><outline text=\"H &amp; x\" _note=\"n&#10;m\"><outline text=\"S\"/></outline></body></opml>\n", XD | EXT_PARSE_OPML, FORMAT_HTML, 0 },
+	{ "meta", "Title: T *x*\nAuthor: A\nlatex mode: memoir\n\nbody [%title]\n", XD | EXT_COMPLETE, FORMAT_LATEX, 0 },
+	{ "de", "Title: D\nLanguage: de\n\n\"q\" 'r' text[^n]\n\n[^n]: n\n\n{{TOC}}\n\n# H\n", XD, FORMAT_HTML, 0 },
 };
 #define NJOBS ((int)(sizeof JOBS / sizeof JOBS[0]))
 static int tjobs[MAXT][2], ntj[MAXT];
@@ -87,8 +93,12 @@ static int anchors_consistent(const char *h) {
 }
 static void run_job(int t, int k) {
 	const job *j = &JOBS[tjobs[t][k]];
-	DString *d = mmd_string_convert_to_data(j->src, j->ext, j->fmt, 0, NULL);
-	outhash[t][k] = d ? out_hash(j, d) : 0;
+	DString *pre = NULL; const char *src = j->src; uint64_t extra = 0;
+	if (j->ext & (EXT_CRITIC_ACCEPT | EXT_CRITIC_REJECT)) { pre = d_string_new(j->src); if (j->ext & EXT_CRITIC_ACCEPT) mmd_critic_markup_accept(pre); else mmd_critic_markup_reject(pre); src = pre->str; extra = fnv(pre->str, pre->currentStringLength); }
+	if (!strcmp(j->name, "meta")) { char *v = mmd_string_metavalue_for_key(j->src, "title"); char *ks = mmd_string_metadata_keys(j->src); if (v) { extra ^= fnv(v, strlen(v)); free(v); } if (ks) { extra ^= fnv(ks, strlen(ks)) * 3; free(ks); } }
+	DString *d = mmd_string_convert_to_data(src, j->ext, j->fmt, 0, NULL);
+	outhash[t][k] = d ? out_hash(j, d) ^ (extra * 0x9E3779B97F4A7C15ULL) : 0;
+	if (pre) d_string_free(pre, true);
 	anchors_ok[t][k] = (j->random && d) ? anchors_consistent(d->str) : 1;
 	if (d) d_string_free(d, true);
 }
